@@ -739,6 +739,7 @@ func RecoverWALData() {
 	for _, fileData := range walFilesData {
 		mBlock := initMetricsBlock(fileData.mId, fileData.segID, fileData.blockNo)
 		isWalFileEmpty := true
+		replayedFiles := make([]string, 0, len(fileData.walFiles))
 		for _, walFileName := range fileData.walFiles {
 			filePath := filepath.Join(baseDir, walFileName)
 			walIterator, err := wal.NewWALReader(filePath)
@@ -763,10 +764,7 @@ func RecoverWALData() {
 				isWalFileEmpty = false
 			}
 			_ = walIterator.Close()
-			err = deleteWalFile(baseDir, walFileName)
-			if err != nil {
-				log.Warnf("RecoverWALData : Failed to delete wal file %s: %v", walFileName, err)
-			}
+			replayedFiles = append(replayedFiles, walFileName)
 		}
 
 		if !isWalFileEmpty {
@@ -775,9 +773,18 @@ func RecoverWALData() {
 			if err != nil {
 				log.Warnf("RecoverWALData :Failed to flush block for shardID=%s, segID=%d, blockNo=%d: %v",
 					fileData.mId, fileData.segID, fileData.blockNo, err)
+				continue
 			}
 		}
 
+		// The WAL files are the only copy of the datapoints until the block is flushed:
+		// delete them after the flush, so that a restart that dies here can replay them again.
+		for _, walFileName := range replayedFiles {
+			err := deleteWalFile(baseDir, walFileName)
+			if err != nil {
+				log.Warnf("RecoverWALData : Failed to delete wal file %s: %v", walFileName, err)
+			}
+		}
 	}
 }
 
